@@ -176,6 +176,21 @@ def build_module(rnd):
         lines.append("  %d [+%d]  %s  %s" % (pos, w // 8, tn, fname))
         fields.append((fname, e, pos, w))
         pos += w // 8
+    # narrow enum fields inside a bits block (unsigned enums only: narrow signed enums are a recorded finding)
+    cands = [e for e in enums if not e.signed() and e.maximum_bits is None and e is not ie]
+    if cands:
+        lines.append("  %d [+2]  bits:" % pos)
+        off = 0
+        for w in rnd.sample([1, 2, 3, 5, 7, 12, 9, 4], 3):
+            if off + w > 16:
+                continue
+            e = rnd.choice(cands)
+            tn = e.name if not e.path or e.path == ["Holder"] else ".".join(e.path + [e.name])
+            fname = "n%d_%d" % (w, off)
+            lines.append("    %d [+%d]  %s  %s" % (off, w, tn, fname))
+            fields.append((fname, e, pos, w, off, 16))
+            off += w
+        pos += 2
     return "\n".join(lines) + "\n", enums, fields, pos
 
 
@@ -257,8 +272,14 @@ def driver_source(enums, fields, total, bufs):
     # enum fields: raw values, named and unnamed
     for bi, b in enumerate(bufs):
         L.append("  { unsigned char buf[%d] = {%s}; auto v = ::v::en::MakeHolderView(buf, sizeof(buf));" % (max(1, len(b)), ", ".join(str(x) for x in b) or "0"))
-        for fname, e, pos, w in fields:
+        for fld in fields:
+            fname, e, pos, w = fld[:4]
             L.append("    { auto f = v.%s(); bool ok = f.Ok(); P(\"b%d.%s\", ok ? N(static_cast<std::underlying_type<decltype(f.Read())>::type>(f.Read())) : std::string(\"!ok\")); }" % (fname, bi, fname))
+            if len(fld) > 4:
+                off, blk = fld[4], fld[5]
+                raw = (int.from_bytes(bytes(b[pos : pos + blk // 8]), "little") >> off) & ((1 << w) - 1)
+                expect.append(("b%d.%s" % (bi, fname), str(raw), ""))
+                continue
             raw = int.from_bytes(bytes(b[pos : pos + w // 8]), "little")
             val = raw
             if e.signed() and raw >= 2 ** (w - 1) and w == e.underlying():
@@ -266,6 +287,22 @@ def driver_source(enums, fields, total, bufs):
             signed_narrow = e.signed() and w < e.underlying()
             expect.append(("b%d.%s" % (bi, fname), str(val if not signed_narrow else (raw - 2**w if raw >= 2 ** (w - 1) else raw)), "signed-narrow" if signed_narrow else ""))
         L.append("  }")
+    # enum fields accept any in-range value, named or not, and nothing else
+    L.append("  { unsigned char buf[%d]; std::memset(buf, 0, sizeof(buf)); auto v = ::v::en::MakeHolderView(buf, sizeof(buf));" % max(1, total))
+    for fld in fields:
+        fname, e, pos, w = fld[:4]
+        if e.signed() and w < e.underlying():
+            continue  # recorded finding: narrow signed enum fields
+        u = e.underlying()
+        lo, hi = (-(2 ** (u - 1)), 2 ** (u - 1) - 1) if e.signed() else (0, 2**u - 1)
+        flo, fhi = (-(2 ** (w - 1)), 2 ** (w - 1) - 1) if e.signed() else (0, 2**w - 1)
+        probes = set([0, 1, fhi, fhi - 1, fhi + 1, flo, flo - 1, hi, lo] + [x[1] for x in e.values] + [x[1] + 1 for x in e.values])
+        for pv in sorted(x for x in probes if lo <= x <= hi):
+            T = cpp_enum_name(e)
+            L.append("    { auto f = v.%s(); %s x = static_cast<%s>(%s); bool c = f.CouldWriteValue(x); bool t = f.TryToWrite(x); bool rb = t && f.Read() == x; P(\"w.%s.%d\", std::string(c ? \"1\" : \"0\") + (t ? \"1\" : \"0\") + (rb ? \"1\" : \"0\")); }" % (fname, T, T, cpp_literal(pv), fname, pv))
+            ok = flo <= pv <= fhi
+            expect.append(("w.%s.%d" % (fname, pv), "111" if ok else "000", ""))
+    L.append("  }")
     L.append("  return 0;")
     L.append("}")
     return "\n".join(L) + "\n", expect
@@ -339,13 +376,13 @@ def run(ctx):
         nfail = 0
         for item in c["expect"]:
             k, v = item[0], item[1]
-            stats.case([c["text"], k], interesting, [k.split(".")[1] if "." in k else "field"], sample={"probe": k, "expected": v, "module_head": c["text"][:300]} if nfail == 0 and stats.evaluations % 97 == 0 else None)
+            stats.case([c["text"], k], interesting, ["field-write" if k.startswith("w.") else (k.split(".")[1] if "." in k and k.startswith("e") else "field-read")], sample={"probe": k, "expected": v, "module_head": c["text"][:300]} if nfail == 0 and stats.evaluations % 97 == 0 else None)
             g = got.get(k)
             if g is not None and v.endswith("|*"):
                 g = g.rsplit("|", 1)[0] + "|*"
             if g != v and nfail < 6:
                 nfail += 1
-                kind = k.split(".")[1] if k.startswith("e") else "field-read"
+                kind = k.split(".")[1] if k.startswith("e") else ("field-write" if k.startswith("w.") else "field-read")
                 sig = {"kind": "enum-mismatch", "what": kind, "field": "enum-signed" if (len(item) > 2 and item[2] == "signed-narrow") else "-"}
                 stats.fail(sig, {"text": c["text"], "probe": k}, "%s: generated code says %r, the definition says %r" % (k, got.get(k), v))
     shutil.rmtree(root, ignore_errors=True)
